@@ -59,6 +59,30 @@ CLAIMED["C20"] = dict(
     technique="Coq invariant proof over operation histories (fold_left) + exhaustive small-scope differential correspondence",
     design="5/C20")
 
+CLAIMED["C02"] = dict(
+    text=("Model of do_competition for the three strategies with both shuffles as arbitrary permutations. Theorems for "
+          "ALL permutations: survivors are unchanged input entries ranked by non-increasing score; a group removed at its "
+          "position is a contaminant or shares a stripped identifier with a leading protein of an earlier-kept survivor that "
+          "scores higher, or equally with the placeholder clause; no survivor shares such an identifier with a strictly "
+          "higher-scoring survivor; classic removes only contaminants. Correspondence: the real do_competition with the "
+          "permutations numpy applied recorded and replayed in the model (exhaustive 2-3-group scope + random); a Python "
+          "monitor of the property classifies disagreements."),
+    note=COMMON_NOTE + "Python sorted is stable; scores come from a stub scorer (C05 covers the real scores); the 'all' and "
+         "'majority' picking strategies (not selectable by any shipped method) are not modelled. Axioms: none.",
+    technique="Coq proof over greedy pass + stable sort, quantified over all shuffles; recorded-shuffle differential correspondence",
+    design="5/C02")
+CLAIMED["C14"] = dict(
+    text=("On the same model: within every score class the final order equals the order after the second shuffle, within "
+          "every (score, placeholder) class the competition order equals the order after the first shuffle (stability), the "
+          "sort keys ignore everything but score and placeholder flag, every arrangement of the input is a shuffle of it, and "
+          "for any two arrival orders each shuffle outcome of one corresponds to a shuffle outcome of the other with the same "
+          "result. Partial: uniformity of numpy's shuffle is trusted, the theorems show the code adds no bias. Correspondence "
+          "with recorded shuffles on tie-heavy inputs; a 6-sigma frequency test is supporting evidence only."),
+    note=COMMON_NOTE + "PARTIAL: the distributional claim rests on numpy's Fisher-Yates/MT19937 being uniform (runtime, not "
+         "modelled). Axioms: none.",
+    technique="Coq proof (sort stability + shuffle equivariance) + recorded-shuffle differential correspondence",
+    design="5/C14")
+
 ALL = [f"C{i:02d}" for i in range(1, 21)]
 
 
